@@ -9,11 +9,31 @@ from .common import (declare_cond, make_cond, cond_spec_params, spec_cond_logpdf
                      density_is_normalised_claims, gt)
 
 
+CTOR_VARIANTS = (("viaL",), ("upd",), ("viaSL",), ("pxdiag",), ("pxSL",))
+
+
+def make_prior(A):
+    """the density p(x) of a transformation case: GaussianPDF(Sigma, mu) unless a variant marker is present
+    (px_is_diag -> GaussianDiagPDF; Lx -> built from Sigma= and a consistent Lambda=)"""
+    factor, measure, pdf, conditional = gt()
+    if "px_is_diag" in A:
+        return pdf.GaussianDiagPDF(Sigma=A["Sx"], mu=A["mx"])
+    if "Lx" in A:
+        return pdf.GaussianPDF(Sigma=A["Sx"], mu=A["mx"], Lambda=A["Lx"])
+    return pdf.GaussianPDF(Sigma=A["Sx"], mu=A["mx"])
+
+
 def prior_decl(b, Rx, Dx, semi=None):
-    if semi and "Sx" in semi:
+    if semi and "pxdiag" in semi:
+        b.diag("Sx", Rx, Dx)
+        b.const("px_is_diag", np.array([Fraction(1)], dtype=object))
+    elif semi and "Sx" in semi:
         b.const("Sx", b.rat_spd(Rx, Dx))
     else:
         b.spd("Sx", Rx, Dx)
+    if semi and "pxSL" in semi:
+        from .c02 import _inv_of
+        b.derived("Lx", (Rx, Dx, Dx), _inv_of("Sx", Rx, Dx))
     if semi and "mx" in semi:
         b.const("mx", b.rat_array((Rx, Dx)))
     else:
@@ -22,13 +42,17 @@ def prior_decl(b, Rx, Dx, semi=None):
 
 def cond_decl(b, kind, Rc, Dy, Dx, semi=None):
     """declare the conditional, optionally binding blocks to generic rationals (semi-symbolic).
-    Pseudo-blocks: "viaL" (construct from the precision only), "upd" (update_Sigma after construction)."""
+    Pseudo-blocks: "viaL" (construct from the precision only), "viaSL" (from covariance and precision together), "upd"
+    (update_Sigma after construction); for the prior: "pxdiag" (GaussianDiagPDF), "pxSL" (built from Sigma= and Lambda=)."""
     semi = semi or ()
     _cond_decl(b, kind, Rc, Dy, Dx, semi)
     R_ = 1 if kind == "nncontrol" else Rc
     if "viaL" in semi:
         from .c02 import _inv_of
         b.derived("c_Lonly", (R_, Dy, Dy), _inv_of("c_S", R_, Dy))
+    if "viaSL" in semi:
+        from .c02 import _inv_of
+        b.derived("c_Lboth", (R_, Dy, Dy), _inv_of("c_S", R_, Dy))
     if "upd" in semi:
         (b.diag if "diag" in kind else b.spd)("c_S2", R_, Dy)
 
@@ -129,13 +153,13 @@ def make_case(prop, what, kind, Dx, Dy, Rc, Rx, N=1, semi=None, timeout=300, ext
             out["prod"] = f.product().evaluate_ln(x)            # [1,1]
             out["slices"] = [f.slice(np.array([n])).evaluate_ln(x) for n in range(N)]
             if what == "sety_ops":
-                px = pdf.GaussianPDF(Sigma=A["Sx"], mu=A["mx"])
+                px = make_prior(A)
                 post = px.multiply(f, update_full=True)         # prior x likelihoods: [Rx*N]
                 out["post_eval"] = post.evaluate_ln(x)
                 out["post_logint"] = post.log_integral()
                 out["px_eval"] = px.evaluate_ln(x)
             return out
-        px = pdf.GaussianPDF(Sigma=A["Sx"], mu=A["mx"])
+        px = make_prior(A)
         if what == "joint":
             j = c.affine_joint_transformation(px)
             out["joint"] = j.evaluate_ln(jnp.concatenate([x, y], axis=1))
